@@ -1,5 +1,6 @@
 import Thanos.Common.Parse
 import Thanos.Model.Prune
+import Thanos.Model.Pool
 /-
   Line-protocol driver of the `proxy` family (C03 C05 C06 C17).
   One request per line, one answer per line; every line is self-contained.
@@ -134,11 +135,127 @@ def handlePrune : List String → Option String
 
 end prune
 
+/-! ### C17
+
+  ops:
+    bpool.run <min> <max> <num> <den> <maxTotal> <script>      pool.BucketedPool (factor = num/den)
+        script := op (',' op)* ; op := g<sz>:n | g<sz>:<cap> (Get; what the bucket's sync.Pool handed back)
+                                     | p<k> (Put what the k-th Get returned) | f<cap> (Put a slice of that capacity)
+        -> hang | per op: ok:<cap>:<used> | ex:<used> | bad | <used>   (',' separated)
+    pool.own <script>                                          ShardInfo.Matcher / ShardMatcher.Close on one sync.Pool
+        script := ev (',' ev)* ; ev := o<m>:<buffer id the pool handed out> | c<m>
+        -> ids=<buffer id per open> free=<sorted buffer ids left in the pool>
+    pool.series <strategy> <nstores> <openErr idx,… | -> <abort>  ProxyStore.Series with ShardInfo over fake stores
+        -> puts=<times the buffer of store i was put back | x (never taken)>
+-/
+section pool
+open Thanos.Pool
+
+/-- the repaired code is modelled: `ShardMatcher.Close` is idempotent, `BucketedPool.Get` tests the
+    budget with the bucket size -/
+def idemClose : Bool := true
+def fixedBudget : Bool := true
+
+def parseBOp? (s : String) : Option BOp :=
+  match s.toList with
+  | 'g' :: r =>
+    match splitChar ':' (String.ofList r) with
+    | [sz, ch] => do
+      let sz ← parseNat? sz
+      if ch = "n" then pure (.get sz none) else do
+        let c ← parseNat? ch
+        pure (.get sz (some c))
+    | _ => none
+  | 'p' :: r => (parseNat? (String.ofList r)).map .putGot
+  | 'f' :: r => (parseNat? (String.ofList r)).map .putCap
+  | _ => none
+
+def showBAns : BAns → String
+  | .got (.ok c) u => s!"ok:{c}:{u}"
+  | .got .exhausted u => s!"ex:{u}"
+  | .got .badChoice _ => "bad"
+  | .put u => toString u
+
+inductive OwnEv where
+  | opn (m : Nat) (buf : Nat)
+  | cls (m : Nat)
+
+def parseOwnEv? (s : String) : Option OwnEv :=
+  match s.toList with
+  | 'o' :: r =>
+    match splitChar ':' (String.ofList r) with
+    | [m, b] => do
+      let m ← parseNat? m
+      let b ← parseNat? b
+      pure (.opn m b)
+    | _ => none
+  | 'c' :: r => (parseNat? (String.ofList r)).map .cls
+  | _ => none
+
+/-- replay an ownership script: the op line names the buffer the real sync.Pool handed out; it is
+    translated into the model's choice (an index into the pooled buffers, or "fresh") -/
+def runOwn : PState → List OwnEv → Option (PState × List Nat)
+  | s, [] => some (s, [])
+  | s, .opn m b :: r =>
+    let pick : Option (Option Nat) :=
+      match s.free.idxOf? b with
+      | some k => some (some k)
+      | none => if b = s.next then some none else none
+    match pick with
+    | none => none
+    | some pk =>
+      let s' := step idemClose s (.opn m pk)
+      (runOwn s' r).map fun (sf, ids) => (sf, b :: ids)
+  | s, .cls m :: r => runOwn (step idemClose s (.cls m)) r
+
+def insertSorted (x : Nat) : List Nat → List Nat
+  | [] => [x]
+  | y :: r => if x ≤ y then x :: y :: r else y :: insertSorted x r
+
+def sortNats (xs : List Nat) : List Nat := xs.foldr insertSorted []
+
+def handlePool : List String → Option String
+  | ["bpool.run", mn, mx, num, den, mt, script] => do
+    let mn ← parseNat? mn
+    let mx ← parseNat? mx
+    let num ← parseNat? num
+    let den ← parseNat? den
+    let mt ← parseNat? mt
+    let ops ← (listOf ',' script).mapM parseBOp?
+    if den = 0 then none else
+    match BPool.new mn mx num den mt with
+    | none => pure "hang"
+    | some p => pure (joinWith "," ((p.runScript fixedBudget [] ops).map showBAns))
+  | ["pool.own", script] => do
+    let evs ← (listOf ',' script).mapM parseOwnEv?
+    match runOwn PState.init evs with
+    | none => pure "bad"
+    | some (s, ids) => pure s!"ids={showNats "," ids} free={showNats "," (sortNats s.free)}"
+  | ["pool.series", _strategy, n, openErr, abort] => do
+    let n ← parseNat? n
+    let errs ← parseNats? ',' openErr
+    let abort ← parseBool? abort
+    -- without failures other than open errors and without a limit every stream is drained: the
+    -- loser tree closes each response set when it is exhausted and the deferred Close runs again
+    let firstErr := (List.range n).find? (fun i => errs.contains i)
+    let cell (i : Nat) : String :=
+      match abort, firstErr with
+      | true, some j =>
+        -- the fan-out loop returns at store j: earlier sets are closed once (deferred), store j
+        -- took a buffer that is never returned, later stores are never reached
+        if i < j then toString (putsOf idemClose 1) else if i = j then "0" else "x"
+      | _, _ => if errs.contains i then "0" else toString (putsOf idemClose 2)
+    pure s!"puts={joinWith "," ((List.range n).map cell)}"
+  | _ => none
+
+end pool
+
 def handle (toks : List String) : String :=
   match toks with
   | [] => "bad-op"
   | op :: _ =>
     if op.startsWith "prune." then (handlePrune toks).getD "bad-op"
+    else if op.startsWith "bpool." || op.startsWith "pool." then (handlePool toks).getD "bad-op"
     else "bad-op"
 
 end Thanos.Driver.Proxy
